@@ -197,6 +197,18 @@ InvJar ==
                 /\ NeededEncl(jar, nests) \subseteq op.created
                 /\ op.created = MayCreate(jar, nests)                             \* as coded: created before the rule is tested
                 /\ LET alts == LawJar(jar, nests).names.anyof IN \E i \in 1..Len(alts) : alts[i] = AsMap(op.names)
+(* tables in which a created class is itself listed: whatever the order of the lines, the routine's result is the *)
+(* nesting for one admissible choice of created classes counted as present                                         *)
+InvJarAlt ==
+    IsCase("jar") =>
+        LET nests == JNests
+            jar == JJar
+            op == NestJarOp(jar, nests)
+        IN /\ (WF(nests) /\ Plain(jar, nests)) => CountedPresent(jar, nests) = {{}}
+           /\ JarPreAlt(jar, nests) =>
+                /\ ~op.clash
+                /\ JarLawAlt(jar, nests, OutOf(op), TRUE)
+                /\ JarLawAlt(jar, nests, OutOf(op), FALSE)
 (* as coded: the same result, except that created classes are no class entries of the jar *)
 InvJarAsCoded ==
     IsCase("jar") =>
@@ -275,7 +287,8 @@ EmitJar ==
         tag == [JTag EXCEPT !.depth = MaxOf({NestDepth(nests, Renamed(jar, nests), c) : c \in Renamed(jar, nests)})]
     IN /\ PrintT(ToJson([op |-> "nest_jar", jar |-> RecipeOf(draft), nests |-> nests, via |-> IF extra.rev \/ size = 3 THEN "text" ELSE "value",
                          text |-> Render(nests), tag |-> tag,
-                         exp |-> IF JarPre(jar, nests) THEN LawJar(jar, nests) ELSE Weak]))
+                         exp |-> IF JarPre(jar, nests) THEN LawJar(jar, nests)
+                                 ELSE IF JarPreAlt(jar, nests) THEN LawJarAlt(jar, nests) ELSE Weak]))
        /\ tag.agree => PrintT(ToJson([op |-> "agree", jar |-> RecipeOf(draft), nests |-> nests, tree |-> JCover, tag |-> tag,
                          exp |-> [st |-> "ok", jarNames |-> AsMap({MapClassT(MapTable(nests), c) : c \in SrcNames(JCover)}),
                                   mapNames |-> AsMap({MapClassT(MapTable(nests), c) : c \in SrcNames(JCover)})]]))
